@@ -128,7 +128,7 @@ func TestC01(t *testing.T) {
 		return
 	}
 
-	perType := vf.N(400, 400000)
+	perType := vf.N(1200, 400000)
 	for typ := uint8(1); typ <= 15; typ++ {
 		typ := typ
 		n := perType
